@@ -18,25 +18,22 @@
     * `cg_edges_project`, `cg_wf`            every directed edge lies over an edge of the input graph; well-formed
     * `cg_inconsistent_has_witness`          'inconsistent' is reported only after a pair of nodes passed the Lemma-24
                                              test while the event gave them two different values
-  PROVED (semantic, relative — see Props/C18 part 2 below):
-    * `prob_zero_of_conflict`                a conjunction that gives two different values to the same random variable
-                                             has probability 0 in every functional SCM
-    * `cg_inconsistent_sound_partial`        'inconsistent' => probability 0, GIVEN that the witnessing pair is the same
-                                             random variable on the event's support (Lemma 24 for that pair)
-    * `cg_prob_partial`                      BOTH probability clauses, for every functional SCM, GIVEN the conclusion of Lemma 24
-                                             (`Lemma24For`) for each merge the construction actually performs on the input
-                                             (`cgTrace`): the whole loop is composed (support of the event is an invariant)
-  -- OPEN: the unconditional probability clauses
-  --   theorem cg_prob : makeCounterfactualGraph ordf G ev = .ok (g, some ev') → M.Compatible G → ν.Distinct →
-  --       probEvent M ν ev' = probEvent M ν ev
-  --   theorem cg_inconsistent_sound : makeCounterfactualGraph ordf G ev = .ok (g, none) → M.Compatible G → ν.Distinct →
-  --       probEvent M ν ev = 0
-  -- (`lemma24For_of_parents` reduces `Lemma24For` to "the parents take the same values", `lemma24For_root` discharges it for
-  --  parentless variables; the structural equation `solve_unforced` is proved for every functional SCM)
-  -- i.e. `cg_prob_partial` without its hypothesis `hL`: what is missing is exactly Lemma 24 of Shpitser–Pearl for the test as
-  -- coded:   lemma24Holds cf evk a b = true → (cf, evk) reachable from (G, ev) → M.Compatible G → Lemma24For M ν (evk, a, b).
-  -- Not mechanised.  These clauses are decided by correspondence + exact evaluation on sampled functional SCMs
-  -- (harness/oracles/cf_fscm.py).
+    * `cg_prob`                              THE PROBABILITY CLAUSES: for every functional SCM compatible with the graph,
+                                             P(relabelled event) = P(event), and 'inconsistent' only if P(event) = 0.
+                                             Lemma 24 of Shpitser–Pearl is PROVED for the test as coded
+                                             (`lemma24_of_test`, Lemmas/CfLemma24) from the structural equation
+                                             (`solve_unforced`) and two loop invariants.
+      hypotheses of `cg_prob` (all are what the Python objects guarantee, none is a semantic assumption):
+        - `Compatible M G` (Spec/Fscm.lean: the class of models — finitely many independent exogenous variables, mechanisms
+          read parents in G, shared noise only along bidirected edges), `ν x ≠ ν x'`;
+        - `G.WF` and no self-loop edges; the event is a dict (`EvOK`: unique keys, values named after their variable);
+        - the worlds are a duplicate-free list of non-empty consistent subscript sets (a Python set of frozensets);
+        - `hpf`: the order in which the nodes are processed lists the model's parents before their children — what
+          `topological_sort` returns (that the MODEL of `topological_sort` does so is not proved in C14; the order is compared
+          with networkx on every C14 run).
+    * `cg_prob_partial`, `lemma24For_of_parents`, `lemma24For_root`, `cg_inconsistent_sound_partial`
+                                             earlier relative forms, kept (they need fewer hypotheses on the graph)
+  Nothing of C18 is left OPEN except the side condition `hpf` above.
 -/
 import Y0.Lemmas.CfGraph
 import Y0.Lemmas.CfFscm
@@ -440,6 +437,69 @@ example : (match makeCounterfactualGraph sortWorlds gBA
 example : (match makeCounterfactualGraph sortWorlds (MG.fromEdges [] [(0, 1), (1, 0)] []) [(A_b, ⟨0, false⟩)] with
     | .error (.internal "NetworkXUnfeasible") => true
     | _ => false) = true := by decide
+
+open Fscm in
+/-- the hypotheses of `cg_prob` are satisfiable: a concrete functional SCM compatible with `B → A` (private binary noise
+for each variable, `B := u₀`, `A := B xor u₁`) -/
+def mBA : Model where
+  order := [1, 0]
+  noise := [[1/3, 2/3], [1/4, 3/4]]
+  pa := fun v => if v = 0 then [1] else []
+  lat := fun v => if v = 0 then [1] else if v = 1 then [0] else []
+  f := fun v ps us => if v = 1 then us.getD 0 0 else (ps.getD 0 0 + us.getD 0 0) % 2
+
+open Fscm in
+example : Compatible mBA gBA := by
+  refine ⟨by decide, by decide, ?_, ?_, ?_⟩
+  · intro v p hp
+    by_cases hv : v = 0
+    · subst hv
+      simp only [mBA, if_true, List.mem_singleton] at hp
+      subst hp
+      decide
+    · simp [mBA, hv] at hp
+  · intro l₁ v l₂ h p hp
+    by_cases hv : v = 0
+    · subst hv
+      simp only [mBA, if_true, List.mem_singleton] at hp
+      subst hp
+      have h' : [1, 0] = l₁ ++ 0 :: l₂ := h
+      rcases l₁ with _ | ⟨x, l₁⟩
+      · simp at h'
+      · simp only [List.cons_append, List.cons.injEq] at h'
+        rw [← h'.1]; simp
+    · simp [mBA, hv] at hp
+  · intro v w hvw hsh
+    obtain ⟨j, hj1, hj2⟩ := hsh
+    exfalso
+    by_cases hv : v = 0
+    · subst hv
+      simp only [mBA, if_true, List.mem_singleton] at hj1
+      subst hj1
+      by_cases hw : w = 0
+      · exact hvw hw.symm
+      · by_cases hw1 : w = 1 <;> simp [mBA, hw, hw1] at hj2
+    · by_cases hv1 : v = 1
+      · subst hv1
+        simp only [mBA] at hj1
+        simp at hj1
+        subst hj1
+        by_cases hw : w = 0
+        · subst hw; simp [mBA] at hj2
+        · by_cases hw1 : w = 1
+          · exact hvw hw1.symm
+          · simp [mBA, hw, hw1] at hj2
+      · simp [mBA, hv, hv1] at hj1
+
+/-- … and the processing order `[B, A]` lists parents first -/
+example : ∀ v, ∀ p ∈ mBA.pa v, Before [1, 0] v p := by
+  intro v p hp
+  by_cases hv : v = 0
+  · subst hv
+    simp only [mBA, if_true, List.mem_singleton] at hp
+    subst hp
+    simp [Before]
+  · simp [mBA, hv] at hp
 end Example
 
 end Y0.Cf
